@@ -1,40 +1,52 @@
 (* C03 — Unzip resource limits hold (zip bombs, nested bombs, lying headers).
    Property theorems only: each is closed by a lemma of Proofs.v and followed by Print Assumptions.
-   Model: GU.C03.Model ([unzip_top] mirrors UnzipWithContextAndLimits of utils/filesystem/zip.go as repaired by
-   fixes/C03-unzip-require-eof.patch), tied to the code by the correspondence runs of harness/cmd/c03.
+   Model: GU.C03.Model: [unzip_topF F] mirrors UnzipWithContextAndLimits of utils/filesystem/zip.go and is parameterised
+   by the facts F that translator-c03 extracts from the Go source on every run ([generated], coq/C03/Gen.v: operators and
+   operands of every limit check, depth switches, what is added to which counter and where, bounded copy + end-of-stream
+   probe, depth of nested calls, getters of Limits, statement order).  EVERY THEOREM BELOW IS ABOUT THE MODEL INSTANTIATED
+   WITH THE GENERATED FACTS; [generated_is_expected] is the obligation that breaks when the source moves.  The model is
+   additionally tied to the code by the correspondence runs of harness/cmd/c03 (also with the generated facts).
    All theorems quantify over EVERY limits configuration (Apply() = true) and EVERY archive: any number of entries, any
    sizes, any lies in the headers, archives nested to ANY depth with any fan-out ([entry] is a nested inductive type),
    recursive mode or not.  [wfb] only says that sizes are numbers the zip format can express (0 <= declared < 2^64,
    0 <= stream length, 0 <= depth). *)
 From Coq Require Import List ZArith Bool Lia.
 Import ListNotations.
-From GU Require Import C03.Model C03.Proofs.
+From GU Require Import C03.Model C03.Concrete C03.Proofs C03.Bridge C03.Gen.
 Local Open Scope Z_scope.
+
+(* The facts extracted from the current source are the ones the proofs were made for. *)
+Theorem generated_is_expected : generated = expected.
+Proof. reflexivity. Qed.
+Print Assumptions generated_is_expected.
+
+Lemma unzip_top_generated lim asize rd es : unzip_topF generated lim asize rd es = unzip_top lim asize rd es.
+Proof. rewrite generated_is_expected. apply unzip_topF_expected. Qed.
 
 (* On success the bytes of regular files on disk are exactly the counted total, which is within MaxTotalSize
    (a uint64, hence the premise 0 <= max_total). *)
 Theorem unzip_success_total_size : forall lim asize rd es,
   0 <= max_total lim ->
-  r_kind (unzip_top lim asize rd es) = None ->
-  files_total (r_nodes (unzip_top lim asize rd es)) <= max_total lim.
-Proof. intros lim asize rd es Hm K. exact (proj2 (top_total_size lim asize rd es Hm K)). Qed.
+  r_kind (unzip_topF generated lim asize rd es) = None ->
+  files_total (r_nodes (unzip_topF generated lim asize rd es)) <= max_total lim.
+Proof. intros lim asize rd es Hm. rewrite unzip_top_generated. intros K. exact (proj2 (top_total_size lim asize rd es Hm K)). Qed.
 Print Assumptions unzip_success_total_size.
 
 (* On success the number of REGULAR FILES on disk is within MaxFileCount (and never above the length of the returned list). *)
 Theorem unzip_success_file_count : forall lim asize rd es,
-  r_kind (unzip_top lim asize rd es) = None ->
-  nfiles (r_nodes (unzip_top lim asize rd es)) <= Z.max 0 (max_count lim)
-  /\ nfiles (r_nodes (unzip_top lim asize rd es)) <= r_cnt (unzip_top lim asize rd es).
-Proof. intros lim asize rd es K. destruct (top_file_count lim asize rd es K); split; assumption. Qed.
+  r_kind (unzip_topF generated lim asize rd es) = None ->
+  nfiles (r_nodes (unzip_topF generated lim asize rd es)) <= Z.max 0 (max_count lim)
+  /\ nfiles (r_nodes (unzip_topF generated lim asize rd es)) <= r_cnt (unzip_topF generated lim asize rd es).
+Proof. intros lim asize rd es. rewrite unzip_top_generated. intros K. destruct (top_file_count lim asize rd es K); split; assumption. Qed.
 Print Assumptions unzip_success_file_count.
 
 (* The stronger reading "entries, directories included" is NOT enforced: ten directory entries pass a limit of 3
    (directories `continue` before the check).  The property speaks of files; this is recorded as an observation. *)
 Theorem unzip_success_entry_count_refuted : exists lim asize es,
-  r_kind (unzip_top lim asize true es) = None /\ r_cnt (unzip_top lim asize true es) > max_count lim
-  /\ nfiles (r_nodes (unzip_top lim asize true es)) = 0.
+  r_kind (unzip_topF generated lim asize true es) = None /\ r_cnt (unzip_topF generated lim asize true es) > max_count lim
+  /\ nfiles (r_nodes (unzip_topF generated lim asize true es)) = 0.
 Proof.
-  exists (mkLim 1000 1000 3 (-1) false), 22, ten_dirs. destruct dirs_not_checked as (A & B & C).
+  exists (mkLim 1000 1000 3 (-1) false), 22, ten_dirs. rewrite unzip_top_generated. destruct dirs_not_checked as (A & B & C).
   split; [exact A|split; [rewrite B; reflexivity|exact C]].
 Qed.
 Print Assumptions unzip_success_entry_count_refuted.
@@ -43,8 +55,8 @@ Print Assumptions unzip_success_entry_count_refuted.
 Theorem unzip_success_file_size : forall lim asize rd es,
   0 <= asize -> forallb wfb es = true ->
   Forall (fun n => match n with NFile _ s => 0 <= s <= max_file lim | NDir _ => True end)
-         (r_nodes (unzip_top lim asize rd es)).
-Proof. intros lim asize rd es Ha Hwf. exact (proj2 (top_sizes lim asize rd es Ha Hwf)). Qed.
+         (r_nodes (unzip_topF generated lim asize rd es)).
+Proof. intros lim asize rd es Ha Hwf. rewrite unzip_top_generated. exact (proj2 (top_sizes lim asize rd es Ha Hwf)). Qed.
 Print Assumptions unzip_success_file_size.
 
 (* ... and at no moment was any file written beyond MaxFileSize or beyond the (unsigned) size its header declares:
@@ -52,15 +64,15 @@ Print Assumptions unzip_success_file_size.
 Theorem unzip_never_overwrites_limit : forall lim asize rd es,
   0 <= asize -> forallb wfb es = true ->
   Forall (fun w => 0 <= w_written w <= max_file lim /\ w_written w <= w_declared w)
-         (r_writes (unzip_top lim asize rd es)).
-Proof. intros lim asize rd es Ha Hwf. exact (proj1 (top_sizes lim asize rd es Ha Hwf)). Qed.
+         (r_writes (unzip_topF generated lim asize rd es)).
+Proof. intros lim asize rd es Ha Hwf. rewrite unzip_top_generated. exact (proj1 (top_sizes lim asize rd es Ha Hwf)). Qed.
 Print Assumptions unzip_never_overwrites_limit.
 
 (* Whatever the result, with the depth limit enabled (>= 0) nothing on disk is deeper than MaxDepth, nested archives included. *)
 Theorem unzip_success_depth : forall lim asize rd es,
   0 <= max_depth lim ->
-  Forall (fun n => node_depth n <= max_depth lim) (r_nodes (unzip_top lim asize rd es)).
-Proof. exact top_depth. Qed.
+  Forall (fun n => node_depth n <= max_depth lim) (r_nodes (unzip_topF generated lim asize rd es)).
+Proof. intros lim asize rd es. rewrite unzip_top_generated. apply top_depth. Qed.
 Print Assumptions unzip_success_depth.
 
 (* An archive whose headers contradict its data — anywhere the extraction looks: at top level or in a nested archive
@@ -69,25 +81,25 @@ Print Assumptions unzip_success_depth.
 Theorem unzip_lying_header_error : forall lim asize rd es,
   forallb wfb es = true ->
   forallb (truthful lim) es = false ->
-  r_kind (unzip_top lim asize rd es) <> None.
+  r_kind (unzip_topF generated lim asize rd es) <> None.
 Proof.
-  intros lim asize rd es Hwf Hl K. rewrite (top_truthful lim asize rd es Hwf K) in Hl. discriminate.
+  intros lim asize rd es Hwf Hl. rewrite unzip_top_generated. intros K. rewrite (top_truthful lim asize rd es Hwf K) in Hl. discriminate.
 Qed.
 Print Assumptions unzip_lying_header_error.
 
 (* Success means that everything was extracted: the disk holds exactly the archive's footprint. *)
 Theorem unzip_success_complete : forall lim asize rd es,
   forallb wfb es = true ->
-  r_kind (unzip_top lim asize rd es) = None ->
-  r_nodes (unzip_top lim asize rd es) = footprint lim es.
-Proof. exact top_complete. Qed.
+  r_kind (unzip_topF generated lim asize rd es) = None ->
+  r_nodes (unzip_topF generated lim asize rd es) = footprint lim es.
+Proof. intros lim asize rd es. rewrite unzip_top_generated. apply top_complete. Qed.
 Print Assumptions unzip_success_complete.
 
 (* An honest archive is either extracted or refused as 'too large' — never with another kind ... *)
 Theorem unzip_refusal_only_too_large : forall lim asize es,
   forallb wfb es = true -> forallb (clean lim) es = true ->
-  r_kind (unzip_top lim asize true es) = None \/ r_kind (unzip_top lim asize true es) = Some TooLarge.
-Proof. intros lim asize es. exact (top_refusal_kind lim asize true es eq_refl). Qed.
+  r_kind (unzip_topF generated lim asize true es) = None \/ r_kind (unzip_topF generated lim asize true es) = Some TooLarge.
+Proof. intros lim asize es. rewrite unzip_top_generated. exact (top_refusal_kind lim asize true es eq_refl). Qed.
 Print Assumptions unzip_refusal_only_too_large.
 
 (* ... and if its footprint would exceed ANY of the limits it is refused with the 'too large' kind. *)
@@ -95,8 +107,8 @@ Theorem unzip_refusal_kind : forall lim asize es,
   0 <= asize -> 0 <= max_total lim ->
   forallb wfb es = true -> forallb (clean lim) es = true ->
   exceeds lim es ->
-  r_kind (unzip_top lim asize true es) = Some TooLarge.
-Proof. intros lim asize es. exact (top_exceeding_refused lim asize true es eq_refl). Qed.
+  r_kind (unzip_topF generated lim asize true es) = Some TooLarge.
+Proof. intros lim asize es. rewrite unzip_top_generated. exact (top_exceeding_refused lim asize true es eq_refl). Qed.
 Print Assumptions unzip_refusal_kind.
 
 (* ---- non-vacuity: the premises are satisfiable and the bounds are tight ---- *)
@@ -106,24 +118,24 @@ Definition outer : list entry :=
 
 (* exact limits: 19 bytes, 4 files (plus one directory entry counted), depth 1+1+2 = 4, largest file = the nested archive *)
 Example c03_exact_limits_pass :
-  let r := unzip_top (mkLim 300 19 5 4 true) 300 true outer in
+  let r := unzip_topF generated (mkLim 300 19 5 4 true) 300 true outer in
   r_kind r = None /\ files_total (r_nodes r) = 19 /\ nfiles (r_nodes r) = 4 /\ r_cnt r = 5
   /\ forallb wfb outer = true /\ forallb (clean (mkLim 300 19 5 4 true)) outer = true.
 Proof. vm_compute. repeat split; reflexivity. Qed.
 Example c03_off_by_one_refused :
-  r_kind (unzip_top (mkLim 300 18 5 4 true) 300 true outer) = Some TooLarge
-  /\ r_kind (unzip_top (mkLim 300 19 4 4 true) 300 true outer) = Some TooLarge
-  /\ r_kind (unzip_top (mkLim 300 19 5 3 true) 300 true outer) = Some TooLarge
-  /\ r_kind (unzip_top (mkLim 299 19 5 4 true) 300 true outer) = Some TooLarge
-  /\ r_kind (unzip_top (mkLim 300 19 5 4 true) 301 true outer) = Some TooLarge.
+  r_kind (unzip_topF generated (mkLim 300 18 5 4 true) 300 true outer) = Some TooLarge
+  /\ r_kind (unzip_topF generated (mkLim 300 19 4 4 true) 300 true outer) = Some TooLarge
+  /\ r_kind (unzip_topF generated (mkLim 300 19 5 3 true) 300 true outer) = Some TooLarge
+  /\ r_kind (unzip_topF generated (mkLim 299 19 5 4 true) 300 true outer) = Some TooLarge
+  /\ r_kind (unzip_topF generated (mkLim 300 19 5 4 true) 301 true outer) = Some TooLarge.
 Proof. vm_compute. repeat split; reflexivity. Qed.
 (* the witness that was accepted (truncated to 5 bytes) before the repair is now an error, and nothing beyond 5 bytes is written *)
 Example c03_lying_header_refused :
-  let r := unzip_top (mkLim 1000 1000 10 (-1) false) 100 true [lying_entry] in
+  let r := unzip_topF generated (mkLim 1000 1000 10 (-1) false) 100 true [lying_entry] in
   r_kind r = Some Other /\ r_writes r = [mkWr 5 5] /\ forallb (truthful (mkLim 1000 1000 10 (-1) false)) [lying_entry] = false.
 Proof. vm_compute. repeat split; reflexivity. Qed.
 (* a header declaring 2^63 bytes (negative as int64) slips under every per-file limit but writes nothing and is refused *)
 Example c03_wrapped_size_refused :
-  let r := unzip_top (mkLim 10 10 10 (-1) false) 9 true [EFile 0 false (2 ^ 63) 9 true true Plain []] in
+  let r := unzip_topF generated (mkLim 10 10 10 (-1) false) 9 true [EFile 0 false (2 ^ 63) 9 true true Plain []] in
   r_kind r = Some Other /\ r_writes r = [mkWr (2 ^ 63) 0].
 Proof. vm_compute. repeat split; reflexivity. Qed.
